@@ -8,6 +8,11 @@ use std::time::{Duration, Instant};
 
 use crate::case::{Case, Sink};
 
+/// the in-process servers outlive any run of the matrix (they used to stop after 60 s: on a slower or loaded
+/// machine the last rows then met closed ports and valid handshakes were reported as rejected — a false alarm
+/// of the check, seen by `vp check` on a fresh copy)
+const SERVER_LIFETIME_S: u64 = 3 * 3600;
+
 fn certs_dir() -> std::path::PathBuf {
     let exe = std::env::current_exe().unwrap();
     // <harness>/target/release/atto-verif
@@ -46,7 +51,7 @@ fn tls_server_on(bind: &str, ident: &str) -> u16 {
     let port = l.local_addr().unwrap().port();
     std::thread::spawn(move || {
         l.set_nonblocking(true).ok();
-        let end = Instant::now() + Duration::from_secs(60);
+        let end = Instant::now() + Duration::from_secs(SERVER_LIFETIME_S);
         while Instant::now() < end {
             match l.accept() {
                 Ok((s, _)) => {
@@ -75,7 +80,7 @@ fn connect_proxy(target_port: u16) -> u16 {
     let port = l.local_addr().unwrap().port();
     std::thread::spawn(move || {
         l.set_nonblocking(true).ok();
-        let end = Instant::now() + Duration::from_secs(60);
+        let end = Instant::now() + Duration::from_secs(SERVER_LIFETIME_S);
         while Instant::now() < end {
             match l.accept() {
                 Ok((mut c, _)) => {
@@ -126,7 +131,7 @@ fn tls_connect_proxy(target_port: u16) -> u16 {
     let port = l.local_addr().unwrap().port();
     std::thread::spawn(move || {
         l.set_nonblocking(true).ok();
-        let end = Instant::now() + Duration::from_secs(90);
+        let end = Instant::now() + Duration::from_secs(SERVER_LIFETIME_S);
         while Instant::now() < end {
             match l.accept() {
                 Ok((c, _)) => {
@@ -209,6 +214,9 @@ pub fn generate(_seed: u64, tier: &str, sink: &mut Sink) {
     let proxies: Vec<u16> = ports.iter().map(|p| connect_proxy(*p)).collect();
     let tls_proxies: Vec<u16> = ports.iter().map(|p| tls_connect_proxy(*p)).collect();
     std::thread::sleep(Duration::from_millis(50));
+    // the rows of the matrix, then run by worker threads (a handshake costs tens of milliseconds: the connector
+    // loads the system trust store every time); results are emitted in matrix order
+    let mut rows: Vec<(usize, bool, &str, bool, bool, bool, &str, &str)> = vec![];
     for (ci, (chain, chain_ok_with_root, time_ok)) in chains.iter().enumerate() {
         for (name_ok, host_kind) in [(true, "dns"), (false, "dns"), (false, "ipv6-literal")] {
             for aic in [false, true] {
@@ -229,104 +237,140 @@ pub fn generate(_seed: u64, tier: &str, sink: &mut Sink) {
                                 if !thorough && mode == "https-proxy" && (place == "request" || (*chain == "unknown")) {
                                     continue;
                                 }
-                                let host = if ip6 { "[::1]" } else if name_ok { "good.test" } else { "other.test" };
-                                if !ip6 {
-                                    attohttpc::verif_hooks::set_resolver_override(host, vec![std::net::SocketAddr::from(([127, 0, 0, 1], ports[ci]))]);
-                                }
-                                // directly the IPv6 listener is dialled; through the proxy the CONNECT names [::1]:port and the
-                                // proxy relays to the IPv4 listener with the same identity
-                                let url = format!("https://{}:{}/", host, if ip6 && mode == "direct" { ports6[ci] } else { ports[ci] });
-                                let mut sess = attohttpc::Session::new();
-                                sess.connect_timeout(Duration::from_secs(2));
-                                sess.read_timeout(Duration::from_secs(2));
-                                if mode == "connect" {
-                                    sess.proxy_settings(attohttpc::ProxySettings::builder().https_proxy(url::Url::parse(&format!("http://127.0.0.1:{}", proxies[ci])).ok()).build());
-                                } else if mode == "https-proxy" {
-                                    attohttpc::verif_hooks::set_resolver_override("sproxy.test", vec![std::net::SocketAddr::from(([127, 0, 0, 1], tls_proxies[ci]))]);
-                                    sess.proxy_settings(attohttpc::ProxySettings::builder().https_proxy(url::Url::parse(&format!("https://sproxy.test:{}", tls_proxies[ci])).ok()).build());
-                                } else {
-                                    sess.proxy_settings(attohttpc::ProxySettings::builder().build());
-                                }
-                                // where the flags / the root are set
-                                let (eff_aic, eff_aih, eff_root);
-                                let res = match place {
-                                    "session" => {
-                                        sess.danger_accept_invalid_certs(aic);
-                                        sess.danger_accept_invalid_hostnames(aih);
-                                        if root_added {
-                                            sess.add_root_certificate(if *chain == "pinned" { pinned_root() } else { root() });
-                                        }
-                                        eff_aic = aic;
-                                        eff_aih = aih;
-                                        eff_root = root_added;
-                                        sess.get(&url).send()
-                                    }
-                                    "request" => {
-                                        let mut rb = sess.get(&url).danger_accept_invalid_certs(aic).danger_accept_invalid_hostnames(aih);
-                                        if root_added {
-                                            rb = rb.add_root_certificate(if *chain == "pinned" { pinned_root() } else { root() });
-                                        }
-                                        eff_aic = aic;
-                                        eff_aih = aih;
-                                        eff_root = root_added;
-                                        rb.send()
-                                    }
-                                    _ => {
-                                        // set on a sibling request and on a clone: must not reach this request
-                                        let mut sib = sess.get(&url).danger_accept_invalid_certs(aic).danger_accept_invalid_hostnames(aih);
-                                        if root_added {
-                                            sib = sib.add_root_certificate(if *chain == "pinned" { pinned_root() } else { root() });
-                                        }
-                                        let mut clone = sess.clone();
-                                        clone.danger_accept_invalid_certs(aic);
-                                        clone.danger_accept_invalid_hostnames(aih);
-                                        eff_aic = false;
-                                        eff_aih = false;
-                                        eff_root = false;
-                                        let r = sess.get(&url).send();
-                                        drop(sib);
-                                        drop(clone);
-                                        r
-                                    }
-                                };
-                                attohttpc::verif_hooks::clear_resolver_overrides();
-                                let accepted = match &res {
-                                    Ok(r) => r.status().as_u16() == 200,
-                                    Err(_) => false,
-                                };
-                                let err_kind = match &res {
-                                    Ok(_) => "ok".to_string(),
-                                    Err(e) => format!("{:?}", e.kind()).chars().take(60).collect(),
-                                };
-                                let chain_ok = *chain_ok_with_root && eff_root;
-                                // the matrix of the statement
-                                let origin_ok = (chain_ok && *time_ok && name_ok) || eff_aic || (eff_aih && chain_ok && *time_ok);
-                                // the https proxy presents a certificate that chains to the test root, is in date and
-                                // matches its name: it verifies iff the root was added or invalid certs are accepted
-                                let proxy_ok = mode != "https-proxy" || eff_root || eff_aic;
-                                let want = origin_ok && proxy_ok;
-                                let pinned = *chain == "pinned";
-                                // an IPv6-literal host: judged one way only (it must not be accepted unless the statement allows
-                                // it); whether a literal that a certificate does list verifies is the backend's business
-                                let o = if accepted == want || ((pinned || ip6) && !accepted) {
-                                    Ok(())
-                                } else if accepted {
-                                    let why = if !chain_ok { "untrusted-chain" } else if !*time_ok { "expired" } else { "wrong-name" };
-                                    Err((format!("accepted-{}-{}", why, if place == "sibling" { "flag-leaked-from-sibling" } else { "flags" }), format!("chain {} name_ok {} aic {} aih {} root {} via {} set on {}: handshake ACCEPTED", chain, name_ok, aic, aih, root_added, mode, place)))
-                                } else {
-                                    Err((format!("rejected-valid-{}", mode), format!("chain {} name_ok {} aic {} aih {} root {} via {} set on {}: {}", chain, name_ok, aic, aih, root_added, mode, place, err_kind)))
-                                };
-                                sink.push(Case {
-                                    tags: vec![format!("backend={}", crate::tlscert::backend()), format!("chain={}", chain), format!("name_ok={}", name_ok), format!("host={}", host_kind), format!("aic={}", aic), format!("aih={}", aih), format!("root={}", root_added), format!("mode={}", mode), format!("set_on={}", place), format!("expect={}", if want { "accept" } else { "reject" })],
-                                    op: if pinned { "nop pinned".to_string() } else if ip6 && !accepted { "nop ipv6-literal".to_string() } else { format!("tls {} {} {} {} {}", eff_aic as u8, eff_aih as u8, chain_ok as u8, *time_ok as u8, name_ok as u8) },
-                                    impl_line: if pinned || (ip6 && !accepted) { "nop".into() } else if accepted { "accept".into() } else { "reject".into() },
-                                    oracle: o,
-                                });
+                                rows.push((ci, name_ok, host_kind, aic, aih, root_added, mode, place));
                             }
                         }
                     }
                 }
             }
         }
+    }
+    let run_row = |row: &(usize, bool, &str, bool, bool, bool, &str, &str)| -> Case {
+        let (ci, name_ok, host_kind, aic, aih, root_added, mode, place) = *row;
+        let (chain, chain_ok_with_root, time_ok) = &chains[ci];
+        let ip6 = host_kind == "ipv6-literal";
+        let host = if ip6 { "[::1]" } else if name_ok { "good.test" } else { "other.test" };
+        if !ip6 {
+            attohttpc::verif_hooks::set_resolver_override(host, vec![std::net::SocketAddr::from(([127, 0, 0, 1], ports[ci]))]);
+        }
+        // directly the IPv6 listener is dialled; through the proxy the CONNECT names [::1]:port and the
+        // proxy relays to the IPv4 listener with the same identity
+        let url = format!("https://{}:{}/", host, if ip6 && mode == "direct" { ports6[ci] } else { ports[ci] });
+        let (eff_aic, eff_aih, eff_root) = if place == "sibling" { (false, false, false) } else { (aic, aih, root_added) };
+        let want_pre = {
+            let chain_ok = *chain_ok_with_root && eff_root;
+            ((chain_ok && *time_ok && name_ok) || eff_aic || (eff_aih && chain_ok && *time_ok)) && (mode != "https-proxy" || eff_root || eff_aic)
+        };
+        // a handshake that ought to succeed and fails is tried again (twice): on a loaded machine a 6 s
+        // timeout can still expire; only a failure that persists is reported
+        let mut tries = 0;
+        let res = loop {
+        let mut sess = attohttpc::Session::new();
+        sess.connect_timeout(Duration::from_secs(6));
+        sess.read_timeout(Duration::from_secs(6));
+        if mode == "connect" {
+            sess.proxy_settings(attohttpc::ProxySettings::builder().https_proxy(url::Url::parse(&format!("http://127.0.0.1:{}", proxies[ci])).ok()).build());
+        } else if mode == "https-proxy" {
+            attohttpc::verif_hooks::set_resolver_override("sproxy.test", vec![std::net::SocketAddr::from(([127, 0, 0, 1], tls_proxies[ci]))]);
+            sess.proxy_settings(attohttpc::ProxySettings::builder().https_proxy(url::Url::parse(&format!("https://sproxy.test:{}", tls_proxies[ci])).ok()).build());
+        } else {
+            sess.proxy_settings(attohttpc::ProxySettings::builder().build());
+        }
+        // where the flags / the root are set
+        let r = match place {
+            "session" => {
+                sess.danger_accept_invalid_certs(aic);
+                sess.danger_accept_invalid_hostnames(aih);
+                if root_added {
+                    sess.add_root_certificate(if *chain == "pinned" { pinned_root() } else { root() });
+                }
+                sess.get(&url).send()
+            }
+            "request" => {
+                let mut rb = sess.get(&url).danger_accept_invalid_certs(aic).danger_accept_invalid_hostnames(aih);
+                if root_added {
+                    rb = rb.add_root_certificate(if *chain == "pinned" { pinned_root() } else { root() });
+                }
+                rb.send()
+            }
+            _ => {
+                // set on a sibling request and on a clone: must not reach this request
+                let mut sib = sess.get(&url).danger_accept_invalid_certs(aic).danger_accept_invalid_hostnames(aih);
+                if root_added {
+                    sib = sib.add_root_certificate(if *chain == "pinned" { pinned_root() } else { root() });
+                }
+                let mut clone = sess.clone();
+                clone.danger_accept_invalid_certs(aic);
+                clone.danger_accept_invalid_hostnames(aih);
+                // the sibling and a request of the clone are really sent first (whatever they set up for
+                // their own handshakes must not be found by the session's next request)
+                if thorough || mode == "direct" {
+                    let _ = sib.send();
+                    let _ = clone.get(&url).send();
+                } else {
+                    drop(sib);
+                    drop(clone);
+                }
+                sess.get(&url).send()
+            }
+        };
+            if want_pre && r.is_err() && tries < 2 {
+                tries += 1;
+                std::thread::sleep(Duration::from_millis(300));
+                continue;
+            }
+            break r;
+        };
+        attohttpc::verif_hooks::clear_resolver_overrides();
+        let accepted = match &res {
+            Ok(r) => r.status().as_u16() == 200,
+            Err(_) => false,
+        };
+        let err_kind = match &res {
+            Ok(_) => "ok".to_string(),
+            Err(e) => format!("{:?}", e.kind()).chars().take(60).collect(),
+        };
+        let chain_ok = *chain_ok_with_root && eff_root;
+        // the matrix of the statement
+        let origin_ok = (chain_ok && *time_ok && name_ok) || eff_aic || (eff_aih && chain_ok && *time_ok);
+        // the https proxy presents a certificate that chains to the test root, is in date and
+        // matches its name: it verifies iff the root was added or invalid certs are accepted
+        let proxy_ok = mode != "https-proxy" || eff_root || eff_aic;
+        let want = origin_ok && proxy_ok;
+        let pinned = *chain == "pinned";
+        // an IPv6-literal host: judged one way only (it must not be accepted unless the statement allows
+        // it); whether a literal that a certificate does list verifies is the backend's business
+        let o = if accepted == want || ((pinned || ip6) && !accepted) {
+            Ok(())
+        } else if accepted {
+            let why = if !chain_ok { "untrusted-chain" } else if !*time_ok { "expired" } else { "wrong-name" };
+            Err((format!("accepted-{}-{}", why, if place == "sibling" { "flag-leaked-from-sibling" } else { "flags" }), format!("chain {} name_ok {} aic {} aih {} root {} via {} set on {}: handshake ACCEPTED", chain, name_ok, aic, aih, root_added, mode, place)))
+        } else {
+            Err((format!("rejected-valid-{}", mode), format!("chain {} name_ok {} aic {} aih {} root {} via {} set on {}: {}", chain, name_ok, aic, aih, root_added, mode, place, err_kind)))
+        };
+        Case {
+            tags: vec![format!("backend={}", crate::tlscert::backend()), format!("chain={}", chain), format!("name_ok={}", name_ok), format!("host={}", host_kind), format!("aic={}", aic), format!("aih={}", aih), format!("root={}", root_added), format!("mode={}", mode), format!("set_on={}", place), format!("expect={}", if want { "accept" } else { "reject" })],
+            op: if pinned { "nop pinned".to_string() } else if ip6 && !accepted { "nop ipv6-literal".to_string() } else { format!("tls {} {} {} {} {}", eff_aic as u8, eff_aih as u8, chain_ok as u8, *time_ok as u8, name_ok as u8) },
+            impl_line: if pinned || (ip6 && !accepted) { "nop".into() } else if accepted { "accept".into() } else { "reject".into() },
+            oracle: o,
+        }
+    };
+    let nworkers = if thorough { 12 } else { 8 };
+    let next = std::sync::atomic::AtomicUsize::new(0);
+    let results: std::sync::Mutex<Vec<Option<Case>>> = std::sync::Mutex::new((0..rows.len()).map(|_| None).collect());
+    std::thread::scope(|sc| {
+        for _ in 0..nworkers {
+            sc.spawn(|| loop {
+                let i = next.fetch_add(1, std::sync::atomic::Ordering::SeqCst);
+                if i >= rows.len() {
+                    break;
+                }
+                let c = run_row(&rows[i]);
+                results.lock().unwrap()[i] = Some(c);
+            });
+        }
+    });
+    for c in results.into_inner().unwrap().into_iter().flatten() {
+        sink.push(c);
     }
 }
